@@ -156,7 +156,7 @@ class LadderTLC(threading.Thread):
     def run(self):
         try:
             self.res = tlc("Gen_ExpanderDepth", f"Gen_ExpanderDepth_{self.tier}.cfg", workers=1, timeout=3000)
-            self.demo = tlc("Gen_ExpanderDepth", "Demo_ExpanderDepth_unbounded.cfg", workers=1, timeout=600, check=False)
+            self.demo = tlc("Gen_ExpanderDepth", "Demo_ExpanderDepth_unbounded.cfg", workers=1, timeout=3000, check=False)
         except BaseException as e:  # noqa: BLE001  (re-raised by the main thread)
             self.err = e
 
@@ -341,6 +341,7 @@ def run(tier: str) -> int:
     if c05b is not None:
         c05b.run_b(o, tier)
     # L: nesting ladders
+    t_l = time.time()
     ladders.join()
     if ladders.err is not None:
         raise ladders.err
@@ -359,7 +360,7 @@ def run(tier: str) -> int:
     for ob in pmap(run_ladders, order, chunk=2):
         judge_ladder(o, lc[ob["idx"]], ob)
         o.traces += 1
-    o.extra["ladders"] = {"cases": len(lc), "predicted_cut": sum(1 for c in lc if c["cls"] == "cut"),
+    o.extra["ladders"] = {"wall_s_after_the_other_parts": round(time.time() - t_l, 1), "cases": len(lc), "predicted_cut": sum(1 for c in lc if c["cls"] == "cut"),
                           "as_is_overrun": sum(1 for c in lc if c["asis_overrun"]), "as_is_behaviour_observed": _G.get("asis_ladders", 0)}
     o.sample({"ladder": ladder_name(lc[order[0]]), "model_class": lc[order[0]]["cls"]})
     return o.finish()
